@@ -30,7 +30,8 @@
     upward surface = global horizontal ... C10_up_surface
     total = direct + diffuse + reflected . C10_total_sum
     surface facing the sun gets DNI ...... C10_facing_sun
-    constants of the source .............. C10_constants_pinned, C10_monthly_tables
+    the formulas of the source ........... Proofs/C10Gen: C10_gen_eq_* (model = regenerated translation)
+    defaults / tables of the source ...... C10_constants_pinned, C10_monthly_tables
 -/
 import Ladybug.Proofs.C10Lemmas
 import Ladybug.Proofs.C10Dirint
@@ -41,9 +42,16 @@ open Real
 
 /-! ### the source's constants -/
 
-/-- The numeric literals of every formula function of skymodel.py, as regenerated from the current
-    source, are the ones the hand-written model was transcribed from. -/
-theorem C10_constants_pinned : Gen.Sky.formulaLiterals = pinnedLiterals := rfl
+/-- The default arguments of skymodel.py's functions, the default air-mass model and the list of air-mass
+    model names, as regenerated from the current source, are the ones the hand-written model was written
+    for.  (The formula bodies themselves are tied statement by statement: Proofs/C10Gen, `C10_gen_eq_*`.) -/
+theorem C10_constants_pinned :
+    Gen.Sky.signatureDefaults = pinnedDefaults ∧
+    Gen.Sky.airmassDefaultModel = pinnedAirmassDefaultModel ∧
+    Gen.Sky.airmassModelNames = pinnedAirmassModelNames ∧
+    Gen.Sky.airmassModelNames.map AmModel.ofString? =
+      [some .kastenyoung1989, some .kasten1966, some .simple, some .pickering2002, some .youngirvine1967,
+       some .young1994, some .gueymard1993] := ⟨rfl, rfl, rfl, rfl⟩
 
 /-- For each month 1..12 `MONTHLY_A` / `MONTHLY_B` have an entry, with `0 < A ≤ 1204` and
     `B ≥ 0.141` (regenerated tables; a changed entry outside these bounds breaks this). -/
